@@ -1,5 +1,5 @@
 SPECIFICATION Spec
-CONSTANTS Lines <- Id6  Prog <- ProgAdjacent  BpSets <- BpsAdjacent  MaxReq = 2  Deviations <- NoDev  Fuel = 60
+CONSTANTS LibLines <- NoLib  Lines <- Id6  Prog <- ProgAdjacent  BpSets <- BpsAdjacent  MaxReq = 2  Deviations <- NoDev  Fuel = 60
 INVARIANT TypeOK
 INVARIANT StoppedIsHalted
 INVARIANT StepExact
